@@ -7,6 +7,7 @@ C17 model: the chunk-list mechanism of weed/filer as the Go code implements it (
   nonOverlapping       = NonOverlappingVisibleIntervals
   viewsOfVisibles      = ViewFromVisibleIntervals ; viewFromChunks = ViewFromChunks
   readLoop/readAt      = ChunkReadAt.doReadAt              (reader_at.go, after `fix:` df4164cc: gaps and tail are zeroed)
+  readLoopF/readAtF    = the same with a fetch oracle (readOneWholeChunk/doFetchFullChunkData may fail ⇒ ReadAt returns the error)
   compact              = CompactFileChunks
   manifestize          = doMaybeManifestize + mergeIntoManifest
   streamContent        = StreamContent                     (stream.go: concatenates the views, no zero fill)
@@ -160,6 +161,40 @@ def readAcc (data : Nat → Nat → Nat) (views : List View) (fileSize len offse
 def readAt (data : Nat → Nat → Nat) (views : List View) (fileSize : Nat) (p : List Nat) (offset : Nat) : Nat × Bool × List Nat :=
   let acc := readAcc data views fileSize p.length offset
   (acc.length, decide (fileSize ≤ offset + p.length), acc ++ p.drop acc.length)
+
+/-! ### reads with fetch faults (cache misses: every chunk the loop copies from is fetched; `ok fid` = the fetch succeeds) -/
+
+/-- the loop body reaches `readChunkSlice` for this view: it has bytes for the rest of the window -/
+def needs (v : View) (s : RS) : Bool :=
+  decide (max v.logic s.pos < min (v.logic + v.size) (s.pos + s.rem))
+
+/-- doReadAt's loop when fetches may fail: `readChunkSlice` returns an error ⇒ the loop returns at once (second component) -/
+def readLoopF (ok : Nat → Bool) (data : Nat → Nat → Nat) : List View → RS → RS × Bool
+  | [], s => (s, false)
+  | v :: vs, s =>
+    if s.rem = 0 then (s, false) else
+    let s1 := gapStep v s
+    if s1.rem = 0 then (s1, false) else
+    if needs v s1 && !ok v.fid then (s1, true)
+    else readLoopF ok data vs (copyStep data v s1)
+
+/-- the file ids the fault-free loop fetches for this window -/
+def usedFids (data : Nat → Nat → Nat) : List View → RS → List Nat
+  | [], _ => []
+  | v :: vs, s =>
+    if s.rem = 0 then [] else
+    let s1 := gapStep v s
+    if s1.rem = 0 then [] else
+    (if needs v s1 then [v.fid] else []) ++ usedFids data vs (copyStep data v s1)
+
+/-- doReadAt with a fetch oracle: (n, 0 = nil | 1 = io.EOF | 2 = fetch error, the caller's buffer afterwards).
+    On an error the code returns before the tail zeroing and the EOF test, with the bytes delivered so far. -/
+def readAtF (ok : Nat → Bool) (data : Nat → Nat → Nat) (views : List View) (fileSize : Nat) (p : List Nat) (offset : Nat) : Nat × Nat × List Nat :=
+  let r := readLoopF ok data views { pos := offset, rem := p.length, acc := [] }
+  let s := r.1
+  if r.2 then (s.acc.length, 2, s.acc ++ p.drop s.acc.length) else
+  let acc := if 0 < s.rem ∧ s.pos < fileSize then s.acc ++ List.replicate (min s.rem (fileSize - s.pos)) 0 else s.acc
+  (acc.length, if fileSize ≤ offset + p.length then 1 else 0, acc ++ p.drop acc.length)
 
 /-- CompactFileChunks on data chunks: (compacted, garbage) -/
 def compact (cs : List Chunk) : List Chunk × List Chunk :=
